@@ -10,8 +10,13 @@ for l in $(cat /repo/go.sum | tr ' ' '_'); do
   grep -qxF "$line" go.sum 2>/dev/null || echo "$line" >> go.sum
 done
 go vet -tags verif ./... >/dev/null 2>&1 || true
+failed=""
 for d in c[0-9][0-9]; do
   [ -d "$d" ] || continue
-  go test -c -tags verif -o ../.bin/$d.test ./$d/ || exit 1
+  # A package that does not build only breaks its own check (the driver
+  # reports exit 2 for it); setup itself carries on.
+  go test -c -tags verif -o ../.bin/$d.test ./$d/ || failed="$failed $d"
 done
+if [ -n "$failed" ]; then echo "setup: packages that did not build:$failed"; fi
 echo setup ok
+exit 0
